@@ -97,7 +97,6 @@ def idealR (c e : Rat) : Rat := 1164383 / 1000000 * c + 1596027 / 1000000 * e
 def idealG (c d e : Rat) : Rat := 1164383 / 1000000 * c - 391762 / 1000000 * d - 812968 / 1000000 * e
 def idealB (c d : Rat) : Rat := 1164383 / 1000000 * c + 2017232 / 1000000 * d
 
-set_option maxHeartbeats 1000000 in
 /-- ERROR OF THE THREE SUMS, all inputs, any bit depth `n ≤ 16` (`W = 2^n`, offsets `W/16`, `W/2`): in units of
 `W·2^-24` the sums are within 3.5 (R), 5.25 (G), 5.5 (B) of the ideal sums, and bounded by 1.9·W, 1.75·W, 2.2·W -/
 theorem sums_err (n W oy oc y u v : Nat) (hW : W = 2 ^ n) (hn : n ≤ 16) (hoy : 16 * oy = W) (hoc : 2 * oc = W)
@@ -214,7 +213,6 @@ def ChanOk (out : Nat) (q eps : Rat) : Prop :=
 /-- the value before the clamp: finite and within `eps` of the unclamped ideal -/
 def ChanRaw (x : Nat) (raw eps : Rat) : Prop := FinP x ∧ Near (toRat x) raw eps
 
-set_option maxHeartbeats 1000000 in
 /-- every channel of `yuvN::f32`, all inputs: within `10·2^-24` of the clamped ideal value.  `F` is the value of the
 rounded constant `1/max`, `δ` its distance from `G = 1/max`; the four numeric side conditions are closed rational
 inequalities (evaluated per bit depth). -/
@@ -592,7 +590,6 @@ theorem yuv8_n16_ok (y u v : Nat) (hy : y < 256) (hu : u < 256) (hv : v < 256) :
   rw [e, yuvF32_8, spec_yuv8]
   exact yuvAll_intro _ _ _ _ _ (fpn16_adm _ _ _ h1 tol_ok) (fpn16_adm _ _ _ h2 tol_ok) (fpn16_adm _ _ _ h3 tol_ok)
 
-set_option maxHeartbeats 1000000 in
 /-- `yuv8::n8` (direct `(sum + 0.5) as u8`), ALL 2^24 inputs: every code is admissible -/
 theorem yuv8_n8_ok (y u v : Nat) (hy : y < 256) (hu : u < 256) (hv : v < 256) :
     yuvAll (admissible 255) (Spec.yuv 8 y u v) (yuvTo 8 0 y u v) = true := by
